@@ -405,3 +405,4 @@ MANIFEST = {
             "guarded only by the [T] stream on reordered equal and nearly equal diagrams.",
     "technique": "Lean 4 theorems over a hand-written model + differential correspondence with the real code + metamorphic tests",
 }
+MANIFEST["note"] += " " + py2lean.manifest_note("heat")
